@@ -57,7 +57,9 @@ def stopper_events(losses, maxlen, ps, atols, rtols, modes=("jit",)):
 COEF0 = [0.3, -0.2]       # the optimisation starts away from zero
 
 
-def build_model(n, seed):
+def build_model(n, seed, split=False):
+    """split: the two coefficients are two scalar parameters, `slope` and `intercept` (optimised in this - not the
+    alphabetical - order)."""
     import tensorflow_probability.substrates.jax.distributions as tfd
 
     import liesel.model as lsl
@@ -65,6 +67,13 @@ def build_model(n, seed):
     rng = np.random.default_rng(seed)
     x = rng.normal(size=n).astype(np.float32)
     y = (0.5 + 1.2 * x + rng.normal(size=n)).astype(np.float32)
+    if split:
+        b0 = lsl.param(jnp.asarray(COEF0[0], jnp.float32), lsl.Dist(tfd.Normal, loc=0.0, scale=10.0), name="intercept")
+        b1 = lsl.param(jnp.asarray(COEF0[1], jnp.float32), lsl.Dist(tfd.Normal, loc=0.0, scale=10.0), name="slope")
+        xv = lsl.obs(jnp.asarray(x), name="x")
+        mu = lsl.Var(lsl.Calc(lambda xs, a, b: a + b * xs, xv, b0, b1), name="mu")
+        yvar = lsl.obs(jnp.asarray(y), lsl.Dist(tfd.Normal, loc=mu, scale=1.0), name="y")
+        return lsl.GraphBuilder().add(yvar).build_model()
     coef = lsl.param(jnp.asarray(COEF0, jnp.float32), lsl.Dist(tfd.Normal, loc=0.0, scale=10.0), name="coef")
     xvar = lsl.obs(jnp.c_[jnp.ones_like(x), x], name="x")
     mu = lsl.Var(lsl.Calc(jnp.dot, xvar, coef), name="mu")
@@ -73,7 +82,7 @@ def build_model(n, seed):
 
 
 def one_run(n=10, batch_size=None, batch_seed=3, max_iter=40, patience=5, atol=1e-3, rtol=0.0,
-            validation=True, restore=True, prune=True, lr=0.05, seed=0, reuse_stopper=False):
+            validation=True, restore=True, prune=True, lr=0.05, seed=0, reuse_stopper=False, split=False):
     """reuse_stopper: the Stopper object was used before, in a call without a validation model"""
     import optax
 
@@ -85,30 +94,38 @@ def one_run(n=10, batch_size=None, batch_seed=3, max_iter=40, patience=5, atol=1
           "rtol": fstr(rtol), "restore": restore, "prune": prune}
     hdr = {"kind": "run", "kwargs": dict(n=n, batch_size=batch_size, batch_seed=batch_seed, max_iter=max_iter,
                                          patience=patience, atol=atol, rtol=rtol, validation=validation,
-                                         restore=restore, prune=prune, lr=lr, seed=seed, reuse_stopper=reuse_stopper)}
+                                         restore=restore, prune=prune, lr=lr, seed=seed, reuse_stopper=reuse_stopper,
+                                         split=split)}
     fd, path = tempfile.mkstemp(suffix=".ndjson")
     os.close(fd)
     try:
         os.environ["LIESEL_VERIF"] = "1"
         os.environ["LIESEL_VERIF_TRACE"] = path
-        model = build_model(n, seed)
-        mval = build_model(max(4, n // 2), seed + 100) if validation else None
+        import functools
+        bm = functools.partial(build_model, split=split)
+        params = ["slope", "intercept"] if split else ["coef"]
+        vec = lambda pos: np.concatenate([np.ravel(np.asarray(pos[k], np.float32)) for k in params])  # noqa: E731
+        hvec = lambda hist: np.concatenate([np.asarray(hist[k], np.float32).reshape(len(hist[k]), -1) for k in params], axis=1)  # noqa: E731
+        unvec = lambda row: ({"slope": jnp.asarray(row[0]), "intercept": jnp.asarray(row[1])} if split  # noqa: E731
+                             else {"coef": jnp.asarray(row)})
+        model = bm(n, seed)
+        mval = bm(max(4, n // 2), seed + 100) if validation else None
         stopper = Stopper(max_iter=max_iter, patience=patience, atol=atol, rtol=rtol)
         if reuse_stopper == "failed":
             # ... in a call that raised (a misspelt parameter name)
             try:
-                optim_flat(build_model(n, seed + 7), ["coeff"], optimizer=optax.adam(lr), stopper=stopper, progress_bar=False)
+                optim_flat(bm(n, seed + 7), ["coeff"], optimizer=optax.adam(lr), stopper=stopper, progress_bar=False)
                 ev["first_call_raised"] = False
             except Exception:  # noqa: BLE001
                 ev["first_call_raised"] = True
             ev["stopper_patience_after_first_use"] = int(stopper.patience)
             open(path, "w").close()
         elif reuse_stopper:
-            optim_flat(build_model(n, seed + 7), ["coef"], optimizer=optax.adam(lr), stopper=stopper, progress_bar=False)
+            optim_flat(bm(n, seed + 7), params, optimizer=optax.adam(lr), stopper=stopper, progress_bar=False)
             ev["stopper_patience_after_first_use"] = int(stopper.patience)
             os.environ["LIESEL_VERIF_TRACE"] = path
             open(path, "w").close()
-        res = optim_flat(model, ["coef"], optimizer=optax.adam(lr),
+        res = optim_flat(model, params, optimizer=optax.adam(lr),
                          stopper=stopper,
                          batch_size=batch_size, batch_seed=batch_seed, model_validation=mval,
                          restore_best_position=restore, prune_history=prune, progress_bar=False)
@@ -118,7 +135,7 @@ def one_run(n=10, batch_size=None, batch_seed=3, max_iter=40, patience=5, atol=1
         ev["iteration_best"] = int(res.iteration_best)
         lv = np.asarray(res.history["loss_validation"], np.float32)
         lt = np.asarray(res.history["loss_train"], np.float32)
-        hp = np.asarray(res.history["position"]["coef"], np.float32)
+        hp = hvec(res.history["position"])
         ev["loss_validation"] = [fstr(x) for x in lv[: it + 1]]
         ev["len_train"], ev["len_validation"], ev["len_position"] = len(lt), len(lv), len(hp)
         nan_from = -1
@@ -128,13 +145,13 @@ def one_run(n=10, batch_size=None, batch_seed=3, max_iter=40, patience=5, atol=1
                 and np.isnan(hp[it + 1:]).all() and not np.isnan(hp[: it + 1]).any()
             nan_from = it + 1 if ok else -2
         ev["nan_from"] = nan_from
-        ev["position"] = [fstr(x) for x in np.asarray(res.position["coef"], np.float32)]
+        ev["position"] = [fstr(x) for x in vec(res.position)]
         ev["hist_position"] = [[fstr(x) for x in row] for row in hp[: it + 1]]
-        ev["start_position"] = [fstr(np.float32(x)) for x in COEF0]
+        ev["start_position"] = [fstr(np.float32(x)) for x in (COEF0[::-1] if split else COEF0)]
         # model state vs position: recompute through the driver's own interface on a fresh model
-        iface = gs.LieselInterface(build_model(n, seed))
-        ref = iface.update_state(res.position, build_model(n, seed).state)
-        names = ["_model_log_prob", "_model_log_lik", "_model_log_prior", "coef_value"]
+        iface = gs.LieselInterface(bm(n, seed))
+        ref = iface.update_state(res.position, bm(n, seed).state)
+        names = ["_model_log_prob", "_model_log_lik", "_model_log_prior"] + [k + "_value" for k in params]
         sv, rv = [], []
         for nm in names:
             sv += [fstr(x) for x in np.ravel(np.asarray(res.model_state[nm].value, np.float32))]
@@ -143,13 +160,13 @@ def one_run(n=10, batch_size=None, batch_seed=3, max_iter=40, patience=5, atol=1
         rv += [fstr(x) for x in np.ravel(np.asarray(ref["mu_value"].value, np.float32))]
         ev["state_vals"], ev["recomputed_vals"] = sv, rv
         # the recorded validation loss is the validation model's negative log-probability at the recorded position
-        vmodel = build_model(max(4, n // 2), seed + 100) if validation else build_model(n, seed)
+        vmodel = bm(max(4, n // 2), seed + 100) if validation else bm(n, seed)
         viface = gs.LieselInterface(vmodel)
         vstate = vmodel.state
         nv = max(4, n // 2) if validation else n      # the log-likelihood is scaled to the size of the training data
 
         def vloss(row):
-            st = viface.update_state({"coef": jnp.asarray(row)}, vstate)
+            st = viface.update_state(unvec(row), vstate)
             return -(np.float32(n / nv) * st["_model_log_lik"].value + st["_model_log_prior"].value)
         ev["loss_validation_recomputed"] = [fstr(np.float32(vloss(row))) for row in hp[: it + 1]]
         recs = [json.loads(line) for line in open(path)] if os.path.getsize(path) else []
@@ -161,7 +178,7 @@ def one_run(n=10, batch_size=None, batch_seed=3, max_iter=40, patience=5, atol=1
             ev["first_batches_other_seeds"] = []
             for other in (batch_seed + 1, batch_seed + 2):
                 open(path, "w").close()
-                optim_flat(build_model(n, seed), ["coef"], optimizer=optax.adam(lr), stopper=Stopper(max_iter=2, patience=2),
+                optim_flat(bm(n, seed), params, optimizer=optax.adam(lr), stopper=Stopper(max_iter=2, patience=2),
                            batch_size=batch_size, batch_seed=other, progress_bar=False)
                 jax.effects_barrier()
                 r2 = [json.loads(line) for line in open(path)] if os.path.getsize(path) else []
@@ -186,6 +203,8 @@ def run_jobs_list(quick=True):
         dict(n=10, batch_size=None, max_iter=30, patience=4, atol=0.5, validation=True),
         dict(n=9, batch_size=4, max_iter=25, patience=3, rtol=0.05, atol=0.0, validation=True, prune=False),
         dict(n=8, batch_size=2, max_iter=12, patience=3, validation=True, restore=False, lr=0.5),
+        # two scalar parameters optimised in non-alphabetical order
+        dict(n=10, batch_size=None, max_iter=40, patience=5, validation=True, split=True),
         # a patience window longer than the iteration limit (with and without a validation model): runs to the limit
         dict(n=10, batch_size=None, max_iter=6, patience=9, validation=True),
         dict(n=10, batch_size=5, max_iter=7, patience=10, validation=False, lr=1.2),
